@@ -2,7 +2,7 @@
 # tools/determinism.sh [Cxx ...] : run each quick check twice, with 16 and with 5 worker processes, and
 # compare the complete per-run records (campaign, index, event-log hash, ending, verdict classes).
 set -u
-cd /verif/sim && CARGO_NET_OFFLINE=true cargo build --release --offline >/dev/null 2>&1 || { echo "build failed"; exit 2; }
+/verif/tools/mirror.sh && cd /verif/sim && CARGO_NET_OFFLINE=true cargo build --release --offline >/dev/null 2>&1 || { echo "build failed"; exit 2; }
 props="${@:-C01 C02 C03 C04 C05 C06 C07 C08 C09 C10 C11 C13}"
 bad=0
 for p in $props; do
